@@ -5,8 +5,8 @@
 From Coq Require Import Floats Permutation Sorted.
 From JM Require Import Model.Base Model.Num Model.Utf8 Model.Value Model.JsonText Model.Functions Model.Interp Model.Api
      Spec.Grammar Spec.Semantics Proofs.ValueFacts Proofs.FunFacts Proofs.InterpRefine Proofs.SpecFacts Proofs.LogicFacts
-     Proofs.SortFacts Proofs.Utf8Facts Proofs.FunSpec Inst.FloatNum Run.Checker.
-From JM Require Import gen.Tables.
+     Proofs.SortFacts Proofs.Utf8Facts Proofs.FunSpec Proofs.JsonRound Inst.FloatNum Run.Checker.
+From JM Require Import gen.Tables Inst.FloatOrder.
 
 Section C09.
 Context {NumO : NumOps}.
@@ -154,6 +154,14 @@ Theorem C09_to_string :
   end.
 Proof. exact (to_string_equation ord). Qed.
 
+(* ... and that text decodes back to the argument (all JSON data with valid UTF-8
+   strings; NumText: the number law of Proofs/JsonRound.v, a hypothesis on the
+   number type) *)
+Theorem C09_to_string_decodes_back :
+  NumText -> forall v, jok v -> vdepth v <= max_nesting_depth -> (forall s, v <> VStr s) ->
+    exists t, spec_call ord (str "to_string") [SVal v] = Ok (VStr t) /\ json_unmarshal t = Some v.
+Proof. exact (fun NT => to_string_round_trip NT ord). Qed.
+
 Theorem C09_to_array :
   forall v, spec_call ord (str "to_array") [SVal v] = Ok (match v with VArr _ => v | _ => VArr [v] end).
 Proof. exact (to_array_equation ord). Qed.
@@ -260,6 +268,7 @@ Print Assumptions C09_sum.
 Print Assumptions C09_to_number.
 Print Assumptions C09_to_number_finite_or_null.
 Print Assumptions C09_to_string.
+Print Assumptions C09_to_string_decodes_back.
 Print Assumptions C09_to_array.
 Print Assumptions C09_type.
 Print Assumptions C09_not_null.
@@ -295,6 +304,13 @@ Definition ZNum9 : NumOps := {|
   num_parse_json := fun _ => None; num_parse_go := fun _ => None; num_print := fun _ => nil |}.
 Example C09_order_satisfiable : @NumOrder ZNum9.
 Proof. constructor; cbn; intros; lia. Qed.
+
+(* ... and it holds of the binary64 instance the correspondence run uses: on finite
+   floats < is a strict weak order (Inst/FloatOrder.v, through Flocq; this statement
+   alone rests on the standard library's axioms for primitive floats and the reals) *)
+Theorem C09_order_holds_for_binary64 : @NumOrder FloatNum.
+Proof. exact float_order. Qed.
+Print Assumptions C09_order_holds_for_binary64.
 
 Example C09_example :
   (same_outcome (search_compiled (fun m => m) (compile (ECall (str "sort_by") [AExpr arr3; by_k])) VNull)
